@@ -614,11 +614,22 @@ pub fn judge_c14(cx: &DeliveryCtx, out: &mut RunOut) {
             out.violate("C14", "success-implies-provider-ok", format!("accepted with {} calls and provider-ok={}; {}", calls, got_ok, ctx_line(cx)));
         }
     }
-    // the outcome equals the reference verdict whatever the number of Pendings
-    match (cx.expected, cx.out) {
-        (Verdict::Accept, ValOut::Err(e)) => out.violate("C14", "pending-states-do-not-change-outcome", format!("reference accepts; library {} after ready_pending={} answer_pending={}; {}", e.kind, cx.script.ready_pending, cx.script.answer_pending, ctx_line(cx))),
-        (Verdict::Refuse(r), ValOut::Ok(_)) => out.violate("C14", "pending-states-do-not-change-outcome", format!("reference refuses at {}; library accepted after ready_pending={} answer_pending={}; {}", r.name(), cx.script.ready_pending, cx.script.answer_pending, ctx_line(cx))),
-        _ => {}
+    // the outcome is the one an immediate provider with the same answer gives (control twin):
+    // pending states, spurious polls and concurrency never change it
+    if let Some(ctl) = cx.control {
+        out.probe("control_twin_compared");
+        let sig = |o: &ValOut| match o {
+            ValOut::Ok(r) => format!("Ok {:?} {}", r.principal, r.parts.uri),
+            // kind, status and message *class*: the text may name another of several offending
+            // headers depending on hash order (DESIGN §4 C18), and pass-through of provider texts
+            // is asserted by its own clause
+            ValOut::Err(e) => format!("Err {} {} {:?}", e.kind, e.status, classify(e).iter().map(|r| r.name()).collect::<Vec<_>>()),
+            other => other.short(),
+        };
+        let (a, b) = (sig(cx.out), sig(ctl));
+        if a != b {
+            out.violate("C14", "pending-states-do-not-change-outcome", format!("with ready_pending={} answer_pending={} (concurrent tasks, spurious polls) the outcome is {:?}; alone with an immediate provider giving the same answer it is {:?}; {}", cx.script.ready_pending, cx.script.answer_pending, a, b, ctx_line(cx)));
+        }
     }
     // bounded liveness: once the provider future resolved, the validation completes on that poll
     let mut resolved_at: Option<u64> = None;
